@@ -516,8 +516,11 @@ SignalHandler::~SignalHandler() {
 }
 
 void SignalHandler::SetHandler(InterruptHandler handler, void *data) {
-  handler_ = handler;
+  // Unregister first so that a signal arriving between the two stores
+  // never sees the new handler paired with the previous data.
+  handler_ = 0;
   data_ = data;
+  handler_ = handler;
 }
 
 void SignalHandler::HandleSigInt(int sig) {
